@@ -19,6 +19,9 @@ import (
 	og "github.com/kisielk/og-rek"
 )
 
+// classifyWithPos: print an OpcodeError with its position (commands decp / decsp; cases run one at a time).
+var classifyWithPos bool
+
 func classify(err error) string {
 	var oe og.OpcodeError
 	switch {
@@ -27,6 +30,9 @@ func classify(err error) string {
 	case errors.Is(err, io.EOF):
 		return "eof"
 	case errors.As(err, &oe):
+		if classifyWithPos {
+			return "opcode:" + strconv.Itoa(int(oe.Key)) + "@" + strconv.Itoa(oe.Pos)
+		}
 		return "opcode:" + strconv.Itoa(int(oe.Key))
 	case errors.Is(err, og.ErrInvalidPickleVersion):
 		return "invalidVersion"
@@ -666,10 +672,12 @@ func handle(line string) string {
 		return "BADCASE"
 	}
 	switch f[0] {
-	case "dec", "decs":
+	case "dec", "decs", "decp", "decsp":
 		if len(f) != 4 {
 			return "BADCASE"
 		}
+		classifyWithPos = strings.HasSuffix(f[0], "p")
+		defer func() { classifyWithPos = false }()
 		pd, su, err := parseCfg(f[1])
 		if err != nil {
 			return "BADCASE"
@@ -678,7 +686,7 @@ func handle(line string) string {
 		if err != nil {
 			return "BADCASE"
 		}
-		return runDec(pd, su, f[2], []byte(s), f[0] == "decs")
+		return runDec(pd, su, f[2], []byte(s), strings.HasPrefix(f[0], "decs"))
 	case "cuts", "alloc":
 		if len(f) != 3 {
 			return "BADCASE"
@@ -820,6 +828,46 @@ func handle(line string) string {
 			cls = encClass(err)
 		}
 		return fmt.Sprintf("%d %d %s", w.writes, inj, cls)
+	case "encre":
+		// encre <proto> <su> <k> <value>: ONE Encoder; Encode(value) while the k-th Write fails, then Encode(value) again with a
+		// Writer that works: what the second call writes must be exactly the pickle a fresh Encoder writes
+		if len(f) < 5 {
+			return "BADCASE"
+		}
+		proto, err := strconv.Atoi(f[1])
+		k, err2 := strconv.Atoi(f[3])
+		if err != nil || err2 != nil {
+			return "BADCASE"
+		}
+		v, err := parseValue(f[4:])
+		if err != nil {
+			return "BADCASE"
+		}
+		w := &chunkWriter{failAt: k}
+		e := og.NewEncoderWithConfig(w, &og.EncoderConfig{Protocol: proto, StrictUnicode: f[2] == "1"})
+		err1, p1 := encodeOne(e, v)
+		if p1 != "" {
+			return "PANIC:" + p1
+		}
+		first := len(w.chunks)
+		err2b, p2 := encodeOne(e, v)
+		if p2 != "" {
+			return "PANIC:" + p2
+		}
+		second := bytes.Join(w.chunks[first:], nil)
+		fw := &chunkWriter{}
+		errF, p3 := encodeOne(og.NewEncoderWithConfig(fw, &og.EncoderConfig{Protocol: proto, StrictUnicode: f[2] == "1"}), v)
+		if p3 != "" {
+			return "PANIC:" + p3
+		}
+		fresh := bytes.Join(fw.chunks, nil)
+		if (err2b == nil) != (errF == nil) {
+			return fmt.Sprintf("DIFF error after reuse: %v vs fresh %v (first call: %v)", err2b, errF, err1)
+		}
+		if errF == nil && !bytes.Equal(second, fresh) {
+			return "DIFF " + hexOrDash(string(second)) + " fresh " + hexOrDash(string(fresh))
+		}
+		return "SAME"
 	case "rt":
 		if len(f) < 4 {
 			return "BADCASE"
@@ -936,7 +984,7 @@ func caseTimeout() time.Duration {
 			return d
 		}
 	}
-	return 60 * time.Second
+	return 15 * time.Second
 }
 
 func runLines(in io.Reader, out io.Writer) {
